@@ -454,7 +454,8 @@ def mk_iter(ip, st, v, kind=()):
    "<&'a std::vec::Vec<T, A> as std::iter::IntoIterator>::into_iter", 'core::slice::<impl [T]>::iter_mut',
    "core::slice::iter::<impl std::iter::IntoIterator for &'a mut [T]>::into_iter")
 def s_iter(ip, st, fr, name, args, c, site):
-    return one(mk_iter(ip, st, args[0]))
+    mut = 'iter_mut' in name or "&'a mut" in name
+    return one(mk_iter(ip, st, args[0], ('mut',) if mut else ()))
 
 
 @S('<I as std::iter::IntoIterator>::into_iter', 'std::iter::IntoIterator::into_iter')
@@ -705,7 +706,9 @@ def s_chars_next(ip, st, fr, name, args, c, site):
 def s_collect(ip, st, fr, name, args, c, site):
     it = as_iter(ip, st, args[0])
     if 'rev' in it.kind or 'filter' in it.kind or 'enumerate' in it.kind:
-        raise X.Unanalysable('collect after %r' % (it.kind,), site)
+        # kept symbolic: the consumer rule inspects the adaptor chain and its closures
+        rty0 = c['generics'][1] if len(c.get('generics', [])) > 1 else 'std::vec::Vec<?>'
+        return one(X.Sym(('call', 'std::iter::Iterator::collect', (ip.to_term(st, it),)), rty0))
     rty = c['generics'][1] if len(c.get('generics', [])) > 1 else 'std::vec::Vec<?>'
     dom = iter_domain(ip, st, it)
     n = T.mk_sub(it.end, it.pos)
@@ -742,3 +745,25 @@ def s_fold(ip, st, fr, name, args, c, site):
     t = ('fold', dom, ip.to_term(st, init), accv, bound, body)
     rty = c['generics'][-2] if False else aty
     return one(ip.sym_value(st, t, aty))
+
+
+@S('std::option::Option::<T>::map')
+def s_option_map(ip, st, fr, name, args, c, site):
+    v, clo = args
+    if isinstance(v, X.Adt):
+        if v.variant == 'None':
+            return one(none())
+        return one(some_from_term(ip, st, ip.eval_closure(st, clo, [v.xs[0]], site), c))
+    if isinstance(v, X.Sym):
+        d = ip.discr(st, v)
+
+        def k_some(ip, s2, f2, a2):
+            x = opt_payload(ip, s2, a2[0], 'Some', 1)
+            return some_from_term(ip, s2, ip.eval_closure(s2, a2[1], [x], site), c)
+        return [([T.mk_cmp('eq', d, I(0))], lambda *a: none()), ([T.mk_cmp('eq', d, I(1))], k_some)]
+    raise X.Unanalysable('Option::map on %r' % (v,), site)
+
+
+def some_from_term(ip, st, t, c):
+    rty = c['generics'][1] if len(c.get('generics', [])) > 1 else None
+    return some(ip.sym_value(st, t, rty) if rty else t)
